@@ -35,14 +35,21 @@ def run_canaries(prop, canaries, jobs=4):
             f.write_text(txt.replace(c["old"], c["new"]))
             env = dict(os.environ, VF_REPO=str(tmp / "repo"), VF_JOBS=str(jobs))
             env.pop("PYTHONPATH", None)
-            p = subprocess.run([str(HERE / "check"), prop, "--tier", "quick"], cwd=HERE, env=env,
-                               capture_output=True, text=True, timeout=1800)
+            try:
+                p = subprocess.run([str(HERE / "check"), prop, "--tier", "quick"], cwd=HERE, env=env,
+                                   capture_output=True, text=True, timeout=1500)
+            except subprocess.TimeoutExpired:
+                # (a planted defect can send several obligations through the whole fall-back chain of solvers)
+                out.append({"canary": c["name"], "result": "timeout", "time_s": round(time.time() - t0, 1)})
+                continue
             lines = [ln for ln in p.stdout.splitlines() if ln.startswith(("VIOLATION", "UNDECIDED", "INTERNAL"))]
             caught = p.returncode == 1 and any("VIOLATION" in ln for ln in lines)
             named = any(c.get("expect", "") in ln for ln in lines if ln.startswith("VIOLATION"))
             out.append({"canary": c["name"], "result": "caught" if caught else "missed",
                         "expected_obligation_named": bool(named), "exit": p.returncode,
                         "lines": lines[:4], "time_s": round(time.time() - t0, 1)})
+        except Exception as exc:      # a canary is a self-test: it never turns a check into an error
+            out.append({"canary": c["name"], "result": "error", "why": repr(exc)[:200]})
         finally:
             shutil.rmtree(tmp, ignore_errors=True)
     res.notes.append({"canaries": out,
